@@ -290,7 +290,22 @@ func genPortfolioJournal(r *simrt.Rand, noflows bool) (*Journal, string) {
 				from, to = to, from
 				q = Q(r.Range(1, 5)) * QScale
 			}
-			j.Dirs = append(j.Dirs, Dir{Kind: "txn", Date: d, Desc: "flow", Bookings: []Booking{{Credit: from, Debit: to, Qty: q, Com: coms[r.Intn(3)]}}})
+			bs := []Booking{{Credit: from, Debit: to, Qty: q, Com: coms[r.Intn(3)]}}
+			if r.P(0.35) {
+				// a mixed transaction: the external flow together with a transfer inside the portfolio
+				// (salary to the bank and on to the broker); the transfer is no flow, the other booking is
+				a, b := "Assets:Bank", "Assets:Broker"
+				if r.Bool() {
+					a, b = b, a
+				}
+				tr := Booking{Credit: a, Debit: b, Qty: Q(r.Range(1, 5)) * QScale, Com: coms[r.Intn(3)]}
+				if r.Bool() {
+					bs = append(bs, tr)
+				} else {
+					bs = append([]Booking{tr}, bs...)
+				}
+			}
+			j.Dirs = append(j.Dirs, Dir{Kind: "txn", Date: d, Desc: "flow", Bookings: bs})
 		}
 		// start with a large deposit so that withdrawals never empty the portfolio
 		j.Dirs = append(j.Dirs, Dir{Kind: "txn", Date: start, Desc: "seed", Bookings: []Booking{{Credit: "Equity:Equity", Debit: "Assets:Bank", Qty: 1000000 * QScale, Com: "CHF"}}})
